@@ -31,8 +31,11 @@ OBLIGATIONS = [
     'C09.edgeDetector_net',
     # netlist level (Props/C09Net.lean): constructor's netlist under Net.Sim = Lib model, for all histories
     'C09N.cycle', 'C09N.init_state', 'C09N.netTrace_sim', 'C09N.treg_net', 'C09N.counter_net', 'C09N.stepUpCounter_net',
-    'C09N.delayLine_net', 'C09N.edgeDetector_netD', 'C09N.edgeDetector_netD_pre', 'C09N.shiftRegBidir_net', 'C09N.stack_net', 'C09N.pipelinePhase_net',
+    'C09N.delayLine_net', 'C09N.edgeDetector_netD', 'C09N.edgeDetector_netD_pre', 'C09N.shiftRegBidir_net', 'C09N.stack_net', 'C09N.pipelinePhase_net', 'C09N.reg_net',
     'SeqFlat.propagate_combfix', 'SeqFlat.edge_sim', 'SeqFlat.gen_reg_rule', 'C04.propagate_fixpoint', 'C05.leaf_sees_pre_edge',
+    # netlist level on C01's multi-output flat netlists (Props/C09NetM.lean)
+    'C09M.okb_sound', 'C09M.cycle', 'C09M.moduloCounter_net', 'C09M.clockDivider_net', 'FlatM.eqc_val', 'FlatM.edge_sim',
+    'FlatM.propagate_combfix', 'FlatM.CertSrc.topoCheckG_sound',
     # dual-port memory: generated clock (Gen/C09.lean via harness/targets.d/C09.json)
     'C09.dualPort_read_before_write',
     # leaf bridges the block models rest on
@@ -735,6 +738,7 @@ def explore(res, cases, kind, p, max_states):
 NETMAP = {
     'TReg': {'t': 1, 'q': 2, 'e': 3, 'r': 4, 'nq': 5, 'd': 6},
     'Counter': {'q': 1, 'reset': 2, 'inc': 3, 'one': 4, 'zero': 5, 'add': 6, 'd': 7, 'd1': 8, 'e_add': 9, 'add/ci': 10},
+    'Reg': {'d': 1, 'q': 2, 'e': 3, 'r': 4},
     'Edge': {'a': 1, 'r': 2, 'z1': 3, 'na': 4, 'nz1': 5, 'r/Mid': 6, 'r/XOut': 7, 'r/YOut': 8, 'r/NandMid/Mid': 9,
              'r/NandX/Mid': 10, 'r/NandY/Mid': 11, 'r/NandR/Mid': 12},
     'Delay': dict([('a', 1), ('r', 2), ('en', 3), ('reset', 4)] + [(f'r{j}', 5 + j) for j in range(64)]),
@@ -749,6 +753,26 @@ def netmap(kind, p):
         for k in range(d):
             m[f'q_{k}'] = 8 + k
             m[f'rd{k}'] = 8 + d + k
+        return m
+    if kind == 'Mod':
+        w, v = p['w'], p['mod'] - 1
+        m = {'q': 1, 'reset': 2, 'inc': 3, 'co': 4, 'one': 5, 'zero': 6, 'add': 7, 'd': 8, 'd1': 9, 'e_add': 10,
+             'anyreset': 11, 'add/ci': 12}
+        for i in range(w + 2):
+            m[f'eq{v}/b_{i}'] = 13 + i
+            m[f'eq{v}/m{v}/n{i}'] = 13 + w + i
+            m[f'eq{v}/m{v}/prod/and{i}'] = 13 + 2 * w + i
+        return m
+    if kind == 'Div':
+        w, v = p['qw'], p['n'] - 1
+        m = {'clkout': 1, 'reset': 2, 'q': 3, 't': 4, 'i0': 5, 'count/one': 6, 'count/zero': 7, 'count/add': 8, 'count/d': 9,
+             'count/d1': 10, 'count/e_add': 11, 'count/anyreset': 12, 'count/add/ci': 13, 'clkout/nq': 14, 'clkout/d': 15}
+        if not p.get('hasReset', 1):
+            m['i1'] = 2
+        for i in range(w + 2):
+            m[f'count/eq{v}/b_{i}'] = 16 + i
+            m[f'count/eq{v}/m{v}/n{i}'] = 16 + w + i
+            m[f'count/eq{v}/m{v}/prod/and{i}'] = 16 + 2 * w + i
         return m
     if kind == 'Pipe':
         n = len(p['ws'])
@@ -782,6 +806,8 @@ def net_params(kind, p):
         return [p['dir']]
     if kind == 'Delay':
         return [p['w'], p['delay'], int(p['hasEn']), int(p['hasReset'])]
+    if kind == 'Reg':
+        return [p['w'], p.get('dw', p['w']), p.get('ew', 1), p['rv'], int(p['hasE']), int(p['hasR'])]
     raise KeyError(kind)
 
 
@@ -794,6 +820,8 @@ def net_configs(tier):
                 C.append(('Counter', dict(w=w, hasReset=e, hasInc=r)))
                 C.append(('StepUp', dict(w=w, hasReset=e, hasInc=r, sw=max(1, w - 1 + 2 * r))))
     C += [('Edge', dict(dir=k)) for k in (0, 1, 2)]
+    C += [('Reg', dict(w=w, dw=dw, ew=cw, rw=cw, rv=rv, hasE=e_, hasR=r_)) for (w, dw, cw, rv) in [(3, 3, 1, 0), (3, 5, 2, 21), (8, 8, 1, 255), (1, 1, 1, 3)]
+          for e_ in (0, 1) for r_ in (0, 1)]
     C += [('Pipe', dict(ws=ws)) for ws in ([[3], [2, 4], [1, 1, 8]] if tier == 'quick' else [[3], [2, 4], [1, 1, 8], [5, 4, 3, 2, 1], [64, 33]])]
     C += [(k_, dict(w=w, depth=dp, flags=(dp % 2 == 1))) for k_ in ('Srb', 'Stack') for w, dp in ([(1, 1), (4, 2), (4, 3)] if tier == 'quick' else [(1, 1), (4, 2), (4, 3), (2, 7), (33, 12)])]
     for e in (0, 1):
@@ -842,7 +870,7 @@ def render_live(kind, blk, p=None):
             regs.append(f'Reg {f[1]} : {W(f[3])} > {W(f[5])}')
         else:
             comb_ix[lid] = len(kinds)
-            kinds.append(f'{f[0]} {f[1]} : {W(f[3])} > {W(f[5])}')
+            kinds.append(f'{f[0]} {f[1]} : {W(f[3])} > {W(f[5]) if f[5] else W(f[6])}')
     order = [comb_ix[int(x)] for x in d.schedule_lines()[0].split()[1].split(',')] if len(d.schedule_lines()[0].split()) > 1 else []
     ws = sorted((can[x], d.wires[x - 1].getWidth()) for x in used if x != 0)
     return ' ; '.join(kinds) + ' | ' + ' ; '.join(regs) + ' | ' + ','.join(str(x) for x in order) + ' | ' + \
@@ -871,12 +899,51 @@ def netlist_import(res, tier):
             res.disagree('netlist-import', dict(block=kind, params=p, live=lv, lean_builder=ln))
 
 
+def netm_configs(tier):
+    C = [('Mod', dict(w=w, mod=n)) for w, n in [(1, 1), (1, 2), (2, 3), (2, 4), (3, 5), (3, 8), (4, 11), (4, 16), (5, 17)]]
+    C += [('Div', dict(fin=2 * n, fout=1, hasReset=r)) for n in (1, 2, 3, 5, 8) for r in (0, 1)]
+    if tier != 'quick':
+        C += [('Mod', dict(w=w, mod=n)) for w, n in [(3, 6), (3, 7), (5, 32), (6, 33), (8, 200), (8, 256), (12, 2731), (12, 4096)]]
+        C += [('Div', dict(fin=2 * n, fout=1, hasReset=r)) for n in (4, 7, 12, 23, 64, 100) for r in (0, 1)]
+    return C
+
+
+def netm_import(res, tier):
+    """ModuloCounter / ClockDivider: netlist = builder of Lib/SeqNetM.lean, and the decidable side conditions of the
+    theorems of Props/C09NetM.lean (`okb`: the LIVE schedule is an evaluation order, ...) hold on the live instance"""
+    cfgs, live, lines = [], [], []
+    for kind, p in netm_configs(tier):
+        try:
+            blk = Block(kind, p)
+            lv = [x.strip() for x in render_live(kind, blk, p).split('|')]
+            prm = [p['w'], p['mod']] if kind == 'Mod' else [p['n'], p['qw'], int(p.get('hasReset', 1))]
+            lines.append(f"netm {kind} | {','.join(str(x) for x in prm)} | {lv[2]}")
+            live.append(lv)
+            cfgs.append((kind, dict(p)))
+        except Exception as e:
+            res.disagree('netlist-import', dict(block=kind, params=p, what=f'cannot import the live netlist: {type(e).__name__}: {e}'))
+    try:
+        outs = run_driver('Drv/C09.lean', lines)
+    except ToolFailure as e:
+        res.broken.append(('correspondence', 'netlist-import', 'driver does not run: ' + str(e)[:300]))
+        return
+    norm = lambda t: ' '.join(t.split())
+    for (kind, p), lv, ln in zip(cfgs, live, outs):
+        res.hist('netlist_import', kind)
+        lp = [x.strip() for x in ln.split('|')]
+        if len(lp) != 4 or [norm(lv[0]), norm(lv[1]), norm(lv[3])] != [norm(x) for x in lp[:3]]:
+            res.disagree('netlist-import', dict(block=kind, params=p, live=' | '.join(lv), lean_builder=ln))
+        elif lp[3] != '1':
+            res.disagree('netlist-import', dict(block=kind, params=p, live_schedule=lv[2],
+                                                what='okb (side conditions of the netlist-level theorem) is false on the live instance'))
+
+
 # ------------------------------------------------------------------------------------------------ main
 def main(res, tier, rng, replay):
     ok, metas, errors, changed = regenerate()
     for e in errors:
         res.broken.append(('translator', 'py2lean', e))
-    res.proof_stage('Py4hwV.Props.C09Net', OBLIGATIONS)
+    res.proof_stage('Py4hwV.Props.C09NetM', OBLIGATIONS)
     quick = tier == 'quick'
     if ok:
         try:
@@ -886,6 +953,7 @@ def main(res, tier, rng, replay):
         except ToolFailure as e:
             res.broken.append(('correspondence', 'T1', f'generated definitions do not run: {e}'))
     netlist_import(res, tier)
+    netm_import(res, tier)
     cases = Cases(res)
     # corpus first
     cdir = os.path.join(VERIF, 'corpus', 'C09')
